@@ -3,6 +3,7 @@
 # (c) 2017-2020 Michał Górny
 # Licensed under the terms of 2-clause BSD license
 
+import io
 import os.path
 
 from gemato.compression import (
@@ -398,13 +399,18 @@ class ManifestRecursiveLoader:
         else:
             sign = False
 
+        # NB: produce the complete contents (signing may fail) before
+        # the file is opened, i.e. truncated
+        buf = io.StringIO()
+        m.dump(buf,
+               sign_openpgp=sign,
+               sort=sort,
+               openpgp_env=self.openpgp_env,
+               openpgp_keyid=self.openpgp_keyid)
+
         with open_potentially_compressed_path(path, 'w',
                                               encoding='utf8') as f:
-            m.dump(f,
-                   sign_openpgp=sign,
-                   sort=sort,
-                   openpgp_env=self.openpgp_env,
-                   openpgp_keyid=self.openpgp_keyid)
+            f.write(buf.getvalue())
             f.flush()
             return f.buffer.tell()
 
